@@ -12,7 +12,7 @@ BUILD = os.path.join(VERIF, "build")
 
 PROOF_FAILURE_PATTERNS = [
     ("postcondition", re.compile(r"postcondition not satisfied")),
-    ("precondition", re.compile(r"precondition not satisfied")),
+    ("precondition", re.compile(r"precondition not satisfied|fails to satisfy `callee.requires")),
     ("assertion", re.compile(r"assertion failed|assert_by|assert_forall")),
     ("overflow", re.compile(r"possible arithmetic underflow/overflow|possible bit shift|possible division by zero")),
     ("invariant", re.compile(r"invariant not satisfied")),
